@@ -80,6 +80,7 @@ def run(ctx):
     n = 700 if ctx.quick else 20000
     cases = pf_common.gen_pf_cases(ctx, n, big_pool_every=0 if ctx.quick else 50)
     cases += pf_common.gen_pf_fullrange_cases(ctx, 40 if ctx.quick else 600)
+    cases += pf_common.gen_pf_inpool_cases(ctx, 360 if ctx.quick else 4000)
     if not ctx.quick:                     # all (start, end) pairs of uint8 x modes, 4-thread pool
         for s in range(0, 256, 1):
             for e in range(s, 256, 3):
@@ -101,12 +102,18 @@ def run(ctx):
     ctx.cov['evaluations'] += len(cases) + len(wit)
     ctx.cov['distinct_nontrivial'] += len(distinct)
     ctx.cov['rule'] = ('real parallel_for (recording body) on 8 index kinds x ranges at the type limits x pool sizes 0..7 (20 in the thorough tier) x '
-                       'maxThreads x minItemsPerChunk x granularity 1..64 with start mod g swept x static/adaptive/explicit chunk x wait 0/1.  '
+                       'maxThreads x minItemsPerChunk x granularity 1..64 with start mod g swept x static/adaptive/explicit chunk x wait 0/1 x caller = '
+                       'non-pool thread or a worker of the pool under test (every ring index 0..N-1 for N = 1..7).  '
                        'Non-trivial = more than one body invocation; distinct = distinct input tuples')
     ctx.cov['verdict_histogram'] = {'agree_and_partition': hist.get(0, 0), 'partition_but_differs_from_model': hist.get(1, 0),
                                     'not_a_partition': hist.get(2, 0), 'not_a_partition_known_cursor_wrap': hist.get(11, 0)
                                     }
     ctx.cov['cases_by_mode_wait'] = modes
+    seen, miss = pf_common.ring_coverage(cases, [r[2] for r in results])
+    ctx.cov['caller_on_pool_worker'] = {'cases': sum(1 for c in cases if c.get('inpool')), 'distinct_(N,ring)_seen': len(seen), 'of': 28,
+                                        'wanted_ring_not_obtained': miss}
+    if len(seen) < 28:
+        ctx.broken.append('correspondence D(C12): only %d of the 28 (pool size, caller ring index) combinations were reached' % len(seen))
     ctx.cov['traces_validated_against_impl'] += hist.get(0, 0)
     for i in (len(cases) // 3, len(cases) // 2):
         if results[i][1] is not None:
